@@ -128,6 +128,11 @@ package files
 //@     return declSize(fi)
 //@ }
 //
+//@ spec func twinKey(k string) string {
+//@     if strings.HasSuffix(k, "/") { return strings.TrimSuffix(k, "/") }
+//@     return k + "/"
+//@ }
+//
 //@ spec func planEntryOK(c *Content, mtimeSet bool) bool {
 //@     return c != nil && fresh(c) && allocated(c) && c.FileInfo != nil && fresh(c.FileInfo) && allocated(c.FileInfo) &&
 //@         implies(mtimeSet, !c.FileInfo.MTime.IsZero())
@@ -156,6 +161,9 @@ package files
 //
 //@ inline func addParents(contentMap map[string]*Content, path string, mtime time.Time) (err error)
 //@   loop 0
+//@     invariant [C05] only-adds-implicit-directories: forallStr(func(k string) bool {
+//@         return implies(mapHas(contentMap, k), (old(mapHas(contentMap, k)) && contentMap[k] == old(contentMap[k]) && (contentMap[k] == nil || contentMap[k].Type == old(contentMap[k].Type))) || (contentMap[k] != nil && contentMap[k].Type == "implicit dir" && strings.HasSuffix(k, "/")))
+//@     })
 //@     invariant [C11 C12 C07] plan-map-ok: planMapOK(contentMap, !mtime.IsZero())
 //@     invariant [C06] no-failure-so-far: !flag("failed")
 //@     invariant [C07] no-clock-so-far: !flag("clockRead") && !flag("envRead")
@@ -184,6 +192,12 @@ package files
 //@   ensures [C06] loud: implies(err == nil, !flag("failed"))
 //@   ensures [C07] no-clock-no-env: !flag("clockRead") && !flag("envRead")
 //@   modifies [C11 C12] flag("failed")
+//@   onstore (m map[string]*Content, key string, val *Content)
+//@   storeassert [C05] S1-key-is-destination: val != nil && val.Destination == key
+//@   storeassert [C05 C04] S2-key-normalised: strings.HasPrefix(key, "/") && !strings.Contains(key, "//") && !strings.Contains(key, "/../") && !strings.Contains(key, "/./")
+//@   storeassert [C05 C04] S2-directories-end-in-slash: implies(val != nil && key != "/", isDirType(val.Type) == strings.HasSuffix(key, "/"))
+//@   storeassert [C05] S3-no-silent-overwrite: key == "/" || !mapHas(m, key) || (m[key] != nil && m[key].Type == "implicit dir" && val != nil && isDirType(val.Type))
+//@   storeassert [C05] S4-no-file-directory-twin: key == "/" || !mapHas(m, twinKey(key))
 //@   loop 0 (contentMap map[string]*Content)
 //@     invariant [C11 C12 C07] plan-map-ok: planMapOK(contentMap, !mtime.IsZero())
 //@     invariant [C11 C12] map-fresh: fresh(contentMap)
